@@ -540,9 +540,11 @@ def shrink_doc_candidates(doc):
     return out
 
 
-def shrink(ast, doc, drv, kind, tag=None, mode=None, budget=400):
+def shrink(ast, doc, drv, kind, tag=None, mode=None, budget=400, doc_budget=120):
     changed = True
-    while changed and budget > 0:
+    if isinstance(doc, dict) and doc and fails(ast, {}, drv, kind, tag, mode):
+        doc = {}                            # the document plays no role
+    while changed and (budget > 0 or doc_budget > 0):
         changed = False
         for cand in evalgen.shrink_candidates(ast):
             if evalgen.size(cand) >= evalgen.size(ast):
@@ -555,9 +557,9 @@ def shrink(ast, doc, drv, kind, tag=None, mode=None, budget=400):
                 break
         if changed:
             continue
-        for cand in shrink_doc_candidates(doc):
-            budget -= 1
-            if budget <= 0:
+        for cand in ([{}] if isinstance(doc, dict) and doc else []) + shrink_doc_candidates(doc):
+            doc_budget -= 1                 # (its own budget: a long program must not leave the document unshrunk)
+            if doc_budget <= 0:
                 break
             if fails(ast, cand, drv, kind, tag, mode):
                 doc, changed = cand, True
